@@ -364,6 +364,29 @@ def rule_exec_state(cx, tier):
             if st[0] == "a" and place_fields(st[1])[-1:] == ["execution_state"]:
                 v = rv_variant(cx.du(fn), st[2])
                 writes[b.idx] = v or "?"
+    # a private helper that leaves the state non-Active on every one of its paths (`abort_on_timeout`) is a write
+    def state_writes(g):
+        out = {}
+        for b in g.blocks:
+            if b.cleanup:
+                continue
+            for st in b.stmts:
+                if st[0] == "a" and place_fields(st[1])[-1:] == ["execution_state"]:
+                    out[b.idx] = rv_variant(cx.du(g), st[2]) or "?"
+        return out
+    for c in fn.calls():
+        if not c.short.startswith(VM) or c.bb in writes:
+            continue
+        h = cx.F.fn(c.short)
+        if h is None or h.vis == "pub" or h is fn:
+            continue
+        hw = state_writes(h)
+        if not hw or any(v == "Active" for v in hw.values()):
+            continue
+        hcfg = cx.cfg(h)
+        if hcfg.find_path(0, lambda b: b in hcfg.exits, set(hw), include_src_succs=True) is None and 0 not in hcfg.exits \
+                or 0 in hw:
+            writes[c.bb] = "non-Active (in %s)" % h.qual[len(VM):]
     require(any(v == "Active" for v in writes.values()), "R-EXEC-STATE: no write of ExecutionState::Active found")
     r.analysed = {"writes": len(writes), "returns": len(cfg.exits)}
     active_blocks = [b for b, v in writes.items() if v == "Active"]
@@ -695,24 +718,56 @@ def rule_catch_restore(cx, tier):
     r = RuleResult("R-CATCH-RESTORE", "resuming at a catch handler restores the sequence/string builder stacks "
                                       "to their depth at try entry and the value stack to the frame's register window: "
                                       "every path from the catch outcome of the unwinder to set_ip() shrinks both builder "
-                                      "stacks and resizes self.registers; TryStart records both builder depths")
+                                      "stacks and resizes self.registers (in execute_instructions, or in the helper it calls "
+                                      "on that outcome); TryStart records both builder depths")
     fn = cx.need_fn(VM + "execute_instructions")
     cfg = cx.cfg(fn)
     SHRINK = ("Vec::truncate", "Vec::drain", "Vec::split_off", "Vec::clear")
     unw = [c for c in fn.calls() if c.short == VM + "pop_call_stack_on_error"]
-    setips = {c.bb for c in fn.calls() if c.short == VM + "set_ip"}
     require(unw, "R-CATCH-RESTORE: no call of pop_call_stack_on_error in execute_instructions")
-    require(setips, "R-CATCH-RESTORE: no call of set_ip in execute_instructions (catch resumption not found)")
-    shr = {"sequence_builders": set(), "string_builders": set(), "registers": set()}
-    for c in fn.calls():
-        if c.is_(*SHRINK):
-            for fld in ("sequence_builders", "string_builders"):
-                if _receiver_is_self_field(cx, fn, c, fld):
-                    shr[fld].add(c.bb)
-        if c.is_("Vec::resize", "Vec::resize_with") and _receiver_is_self_field(cx, fn, c, "registers"):
-            shr["registers"].add(c.bb)
-    r.analysed = {"unwinder_calls": len(unw), "set_ip_sites": len(setips),
-                  "shrink_sites": {k: len(v) for k, v in shr.items()}}
+
+    def region_facts(g):
+        setips = {c.bb for c in g.calls() if c.short == VM + "set_ip"}
+        shr = {"sequence_builders": set(), "string_builders": set(), "registers": set()}
+        for c in g.calls():
+            if c.is_(*SHRINK):
+                for fld in ("sequence_builders", "string_builders"):
+                    if _receiver_is_self_field(cx, g, c, fld):
+                        shr[fld].add(c.bb)
+            if c.is_("Vec::resize", "Vec::resize_with") and _receiver_is_self_field(cx, g, c, "registers"):
+                shr["registers"].add(c.bb)
+        return setips, shr
+
+    def check_region(g, starts, origin_line):
+        gcfg = cx.cfg(g)
+        setips, shr = region_facts(g)
+        for fld in shr:
+            r.instances += 1
+            r.nontrivial += 1
+            bad = None
+            for e in starts:
+                if e in shr[fld]:
+                    continue
+                p = gcfg.find_path(e, lambda b: b in setips, shr[fld], include_src_succs=False) if e not in setips else [e]
+                if p is not None:
+                    bad = p
+            r.sample({"field": fld, "in": g.qual[len(VM):], "unwinder_call_line": origin_line, "restored_before_set_ip": bad is None})
+            if bad is not None and fld == "registers":
+                r.add(Finding("R-CATCH-RESTORE", g.qual, fld,
+                              "execution can resume at a catch handler without resizing self.registers to the frame's "
+                              "window: the failed instruction may have truncated the value stack (call_koto_function "
+                              "truncates before it checks the arguments) or left temporaries behind, and the handler's "
+                              "first register write indexes past the stack", g.file, origin_line,
+                              [f"bb{b} {g.file}:{line_of(g, b)}" for b in bad]))
+            elif bad is not None:
+                r.add(Finding("R-CATCH-RESTORE", g.qual, fld,
+                              f"execution can resume at a catch handler without shrinking self.{fld}: an error thrown "
+                              f"while a {'list/tuple' if fld == 'sequence_builders' else 'string'} is under construction "
+                              f"and caught leaves its builder behind", g.file, origin_line,
+                              [f"bb{b} {g.file}:{line_of(g, b)}" for b in bad]))
+
+    own_setips, _ = region_facts(fn)
+    helpers_used = set()
     for c in unw:
         # the catch outcome: the Ok edge of the result
         ok_edges = set()
@@ -725,33 +780,23 @@ def rule_catch_restore(cx, tier):
                     for v, tb in b.term[2]:
                         if v == 0:
                             ok_edges.add(tb)
-        reach_setip = [e for e in ok_edges if cfg.reachable({e}) & setips]
-        if not reach_setip:
-            continue  # e.g. the timeout site maps the result away
-        for fld in shr:
-            r.instances += 1
-            r.nontrivial += 1
-            bad = None
-            for e in reach_setip:
-                if e in shr[fld]:
+        reach_setip = [e for e in ok_edges if cfg.reachable({e}) & own_setips]
+        if reach_setip:
+            check_region(fn, reach_setip, c.line)
+            continue
+        # the resumption may live in a private helper called on the catch outcome
+        for e in ok_edges:
+            for b in cfg.reachable({e}):
+                c2 = fn.call_at(b)
+                if c2 is None or not c2.short.startswith(VM):
                     continue
-                p = cfg.find_path(e, lambda b: b in setips, shr[fld], include_src_succs=False)
-                if p is not None:
-                    bad = p
-            r.sample({"field": fld, "unwinder_call_line": c.line, "restored_before_set_ip": bad is None})
-            if bad is not None and fld == "registers":
-                r.add(Finding("R-CATCH-RESTORE", fn.qual, fld,
-                              "execution can resume at a catch handler without resizing self.registers to the frame's "
-                              "window: the failed instruction may have truncated the value stack (call_koto_function "
-                              "truncates before it checks the arguments) or left temporaries behind, and the handler's "
-                              "first register write indexes past the stack", fn.file, c.line,
-                              [f"bb{b} {fn.file}:{line_of(fn, b)}" for b in bad]))
-            elif bad is not None:
-                r.add(Finding("R-CATCH-RESTORE", fn.qual, fld,
-                              f"execution can resume at a catch handler without shrinking self.{fld}: an error thrown "
-                              f"while a {'list/tuple' if fld == 'sequence_builders' else 'string'} is under construction "
-                              f"and caught leaves its builder behind", fn.file, c.line,
-                              [f"bb{b} {fn.file}:{line_of(fn, b)}" for b in bad]))
+                h = cx.F.fn(c2.short)
+                if h is not None and h.vis != "pub" and any(x.short == VM + "set_ip" for x in h.calls()) \
+                        and (h.name, c.bb) not in helpers_used:
+                    helpers_used.add((h.name, c.bb))
+                    check_region(h, [0], c.line)
+    r.analysed = {"unwinder_calls": len(unw), "set_ip_sites_in_execute_instructions": len(own_setips),
+                  "resumption_helpers": sorted({cx.F.fns[n].qual[len(VM):] for n, _ in helpers_used})}
     require(r.instances >= 3, "R-CATCH-RESTORE: catch resumption path (Ok outcome -> set_ip) not found")
     # TryStart records both depths: the function that pushes onto catch_stack reads both lengths
     ex = cx.need_fn(VM + "execute_instruction")
@@ -955,6 +1000,9 @@ def rule_import_once(cx, tier):
         tg = cx.cg.targets(c)
         if any(t in reach_run for t in tg) and (c.short == VM + "run" or any(cx.F.fns[t].kind == "Closure" for t in tg if t in cx.F.fns)):
             runs.append(c)
+        elif any(t in reach_run for t in tg) and c.short.startswith(VM) and cx.F.fn(c.short) is not None \
+                and cx.F.fn(c.short).vis != "pub" and any(x.short == VM + "run" for x in cx.F.fn(c.short).calls()):
+            runs.append(c)          # the module body is run by a private helper method (`run_imported_module`)
     require(runs, "R-IMPORT-ONCE: no call in run_import reaches KotoVm::run")
     r.analysed = {"lookups": len(lookups), "placeholders": len(placeholders), "module_runs": len(runs)}
     lk = lookups[0]
@@ -1756,6 +1804,16 @@ def rule_module_canon(cx, tier):
     fn = cx.need_fn("koto_bytecode::module_loader::find_module")
     du = cx.du(fn)
     from .compiler import ret_class_of_block
+    # helpers of the crate whose own result is a canonicalized path (`canonicalize_module_path(path)`)
+    canon_helpers = set()
+    for g in cx.F.crate_fns("koto_bytecode"):
+        if g is fn or g.kind == "Closure" or "PathBuf" not in (g.local_tstr(0) or ""):
+            continue
+        dug = cx.du(g)
+        srcs = [0]
+        _, _, gcalls = _backward_slice(g, dug, 0, stop=("join", "with_extension", "push", "set_extension"))
+        if any((cc.pretty or cc.short or "").rsplit("::", 1)[-1].startswith("canonicalize") for cc in gcalls):
+            canon_helpers.add(g.name)
     n = 0
     for b in fn.blocks:
         if b.cleanup:
@@ -1775,12 +1833,13 @@ def rule_module_canon(cx, tier):
         n += 1
         r.instances += 1
         r.nontrivial += 1
-        canon = False
+        canon = c is not None and c.dest[0] == 0 and c.resolved in canon_helpers
         for s0 in srcs:
             # canonicalize has to come after the module name was joined on: the (canonical) search folder behind the
             # join does not count
             _, _, calls = _backward_slice(fn, du, s0, stop=("join", "with_extension", "push", "set_extension"))
-            if any((cc.pretty or cc.short or "").rsplit("::", 1)[-1].startswith("canonicalize") for cc in calls):
+            if any((cc.pretty or cc.short or "").rsplit("::", 1)[-1].startswith("canonicalize") or cc.resolved in canon_helpers
+                   for cc in calls):
                 canon = True
         if not canon:
             # the other correct place: every caller canonicalizes what find_module hands back
